@@ -259,6 +259,7 @@ fn main() {
     // --hammer R: with --threads T, thread t owns the records with index = t (mod T) and parses them R times
     // round-robin, so that different threads are inside the same code with DIFFERENT inputs at the same time
     let hammer: usize = arg_value(&args, "--hammer").map(|s| s.parse().unwrap()).unwrap_or(0);
+    let compress = arg_flag(&args, "--compress");
     if quiet_panics {
         std::panic::set_hook(Box::new(|_| {}));
     }
@@ -333,13 +334,21 @@ fn main() {
                 if hammer > 0 {
                     let mine: Vec<usize> = (0..n).filter(|i| i % threads == t).collect();
                     let mut seq = 0usize;
+                    // with --compress only the first call of every input and every call whose outcome differs from
+                    // the previous call of the same input are written (every deviation is kept, the bulk is not)
+                    let mut last: std::collections::HashMap<usize, (Value, Value)> = std::collections::HashMap::new();
                     for round in 0..hammer {
                         for &idx in &mine {
                             let mut r = recs[idx].clone();
                             let shape = ((round + t) % 9) as u64;
                             r["shape"] = Value::from(shape);
                             let o = run_one(&r, false, false);
-                            v.push(json!({"id": o["id"], "thread": t, "seq": seq, "shape": shape, "kind": o["out"]["kind"], "bits": o["out"]["bits"]}));
+                            let cur = (o["out"]["kind"].clone(), o["out"]["bits"].clone());
+                            let changed = last.get(&idx) != Some(&cur);
+                            if !compress || changed {
+                                v.push(json!({"id": o["id"], "thread": t, "seq": seq, "shape": shape, "kind": cur.0, "bits": cur.1, "calls_so_far": round + 1}));
+                                last.insert(idx, cur);
+                            }
                             seq += 1;
                         }
                     }
